@@ -252,7 +252,7 @@ func ruleCrc16(w *core.World, r *core.Report) {
 		}
 	}
 	for _, in := range core.Instrs(f) {
-		if ret, ok := in.(*ssa.Return); ok && len(ret.Results) == 1 && crcPhi != nil && ret.Results[0] == ssa.Value(crcPhi) {
+		if ret, ok := in.(*ssa.Return); ok && len(ret.Results) == 1 && crcPhi != nil && core.RetVal(ret, 0) == ssa.Value(crcPhi) {
 			okRet = true
 		}
 	}
@@ -366,7 +366,7 @@ func ruleSlotFunction(w *core.World, r *core.Report, f *ssa.Function) string {
 			maskOK = false
 			continue
 		}
-		b, ok := ret.Results[0].(*ssa.BinOp)
+		b, ok := core.RetVal(ret, 0).(*ssa.BinOp)
 		good := false
 		if ok {
 			k, isC := core.ConstInt(b.Y)
